@@ -185,11 +185,12 @@ class Body:
 
     def reach(self, starts, avoid_blocks=(), avoid_edges=()):
         """Blocks reachable from `starts` (blocks) without entering avoid_blocks / crossing avoid_edges.
-        A start block that is itself in avoid_blocks is still expanded (we start *after* it)."""
+        A start block that is itself in avoid_blocks is dropped (a path through it does not avoid it).
+        The result contains the successors reached, not the start blocks themselves unless they are re-entered."""
         avoid_blocks = set(avoid_blocks)
         avoid_edges = set(avoid_edges)
         seen = set()
-        stack = list(starts)
+        stack = [s for s in starts if s not in avoid_blocks]
         for s in stack:
             seen.add(s)
         while stack:
